@@ -82,7 +82,7 @@ Section Ladder.
     | [] => None
     | t :: r =>
         if mem_str t SAFE_REDIRECT_TARGETS then targets_verdict cwd r
-        else match mredir cwd t with
+        else match written_rule (mredir cwd t) t with
              | Some Deny => Some Deny
              | Some Ask => Some Ask
              | Some Allow => targets_verdict cwd r
